@@ -147,17 +147,22 @@ Record inv (s : state) : Prop := {
   inv_act  : NoDup (eps_of (active s));
   inv_idle : NoDup (idle s);
   inv_disj : forall e, In e (eps_of (active s)) -> ~ In e (idle s);
-  inv_cover : forall e, In e (members s) <-> In e (eps_of (active s)) \/ In e (idle s)
+  inv_cover : forall e, In e (members s) <-> In e (eps_of (active s)) \/ In e (idle s);
+  inv_leaving : forall e, leaving s = Some e -> ~ In e (members s)
 }.
 
 Lemma inv_init : inv init.
-Proof. constructor; cbn; try constructor; try tauto. Qed.
+Proof. constructor; cbn; try constructor; try tauto; try discriminate. Qed.
+
+Lemma inv_same_sets : forall s s', members s' = members s -> eps_of (active s') = eps_of (active s) -> idle s' = idle s ->
+  leaving s' = leaving s -> inv s -> inv s'.
+Proof. intros s s' E1 E2 E3 E4 [Im Ia Ii Id Ic Il]. constructor; rewrite ?E1, ?E2, ?E3, ?E4; assumption. Qed.
 
 Lemma try_expand_cases : forall s ch s', try_expand s ch = Ok s' ->
   (idle s = [] /\ ch = None /\ s' = s) \/
   (exists e, ch = Some e /\ In e (idle s) /\ In e (members s) /\
      s' = {| members := members s; active := active s ++ [fresh e]; idle := sdiscard e (idle s);
-             pending := sadd e (pending s); total := total s; ema := ema s |}).
+             pending := sadd e (pending s); total := total s; ema := ema s; leaving := leaving s |}).
 Proof.
   intros s ch s' H. unfold try_expand in H. destruct (idle s) as [|i0 ir] eqn:Ei; destruct ch as [e|]; try discriminate.
   - left. inversion H. auto.
@@ -176,7 +181,7 @@ Qed.
 Lemma try_expand_inv : forall s ch s', inv s -> try_expand s ch = Ok s' -> inv s'.
 Proof.
   intros s ch s' I H. apply try_expand_cases in H as [(_ & _ & ->)|(e & _ & Hi & Hm & ->)]; [exact I|].
-  destruct I as [Im Ia Ii Id Ic]. constructor; cbn.
+  destruct I as [Im Ia Ii Id Ic Il]. constructor; cbn.
   - exact Im.
   - rewrite eps_of_app. cbn. apply NoDup_snoc; [exact Ia|]. intros H. exact (Id e H Hi).
   - apply NoDup_sdiscard. exact Ii.
@@ -186,6 +191,7 @@ Proof.
   - intros x. rewrite eps_of_app, in_app_iff, In_sdiscard, Ic. cbn. split.
     + intros [H|H]; [tauto|]. destruct (Z.eq_dec x e) as [->|N]; [left; right; left; reflexivity|tauto].
     + intros [[H|[H|[]]]|[H _]]; [tauto| |tauto]. subst. right. exact Hi.
+  - exact Il.
 Qed.
 
 Lemma victim_ok_In : forall s v, victim_ok s v = true -> In v (eps_of (active s)) /\ ~ In v (pending s).
@@ -204,7 +210,7 @@ Lemma contract_cases : forall c s f victim s', contract c s f victim = Ok s' ->
   (victim = None /\ s' = s /\ ((pending s <> [] /\ f = false) \/ healthy s <= min_size c \/ cands s = [])) \/
   (exists v, victim = Some v /\ victim_ok s v = true /\ (pending s = [] \/ f = true) /\ min_size c < healthy s /\
      s' = {| members := members s; active := remove_first v (active s); idle := sadd v (idle s);
-             pending := pending s; total := total s; ema := ema s |}).
+             pending := pending s; total := total s; ema := ema s; leaving := leaving s |}).
 Proof.
   intros c s f victim s' H. unfold contract in H.
   destruct (negb (is_nil (pending s)) && negb f) eqn:G.
@@ -232,9 +238,9 @@ Qed.
 
 Lemma moved_inv : forall s v, inv s -> In v (eps_of (active s)) ->
   inv {| members := members s; active := remove_first v (active s); idle := sadd v (idle s);
-         pending := pending s; total := total s; ema := ema s |}.
+         pending := pending s; total := total s; ema := ema s; leaving := leaving s |}.
 Proof.
-  intros s v [Im Ia Ii Id Ic] Hv. constructor; cbn.
+  intros s v [Im Ia Ii Id Ic Il] Hv. constructor; cbn.
   - exact Im.
   - apply NoDup_remove_first. exact Ia.
   - apply NoDup_sadd. exact Ii.
@@ -242,6 +248,7 @@ Proof.
   - intros x. rewrite (In_remove_first_NoDup _ _ _ Ia), In_sadd, Ic. split.
     + intros [H|H]; [|tauto]. destruct (Z.eq_dec x v); tauto.
     + intros [[H _]|[->|H]]; tauto.
+  - exact Il.
 Qed.
 
 Lemma contract_inv : forall c s f victim s', inv s -> contract c s f victim = Ok s' -> inv s'.
@@ -250,21 +257,56 @@ Proof.
   apply moved_inv; [exact I|]. apply victim_ok_In in Hv. tauto.
 Qed.
 
-Lemma inv_same_sets : forall s s', members s' = members s -> eps_of (active s') = eps_of (active s) -> idle s' = idle s ->
-  inv s -> inv s'.
-Proof. intros s s' E1 E2 E3 [Im Ia Ii Id Ic]. constructor; rewrite ?E1, ?E2, ?E3; assumption. Qed.
-
-Lemma find_active_In : forall ep a m, find (fun m => m_ep m =? ep) a = Some m -> In ep (eps_of a).
+(* the state in the middle of the departure of an active member *)
+Lemma leave_active_inv : forall s ep, inv s -> In ep (eps_of (active s)) ->
+  inv (set_leaving (set_active (set_members s (sdiscard ep (members s))) (remove_first ep (active s))) (Some ep)).
 Proof.
-  intros ep a m H. apply find_some in H as [H E]. apply Z.eqb_eq in E. subst. unfold eps_of. apply in_map. exact H.
+  intros s ep [Im Ia Ii Id Ic Il] Ea. constructor; cbn.
+  - apply NoDup_sdiscard; exact Im.
+  - apply NoDup_remove_first; exact Ia.
+  - exact Ii.
+  - intros x X. apply In_remove_first in X. exact (Id x X).
+  - intros x. rewrite In_sdiscard, (In_remove_first_NoDup _ _ _ Ia), Ic. split; [tauto|].
+    intros [[X N]|X]; [tauto|]. split; [tauto|]. intros ->. exact (Id ep Ea X).
+  - intros e E. inversion E; subst. rewrite In_sdiscard. tauto.
+Qed.
+
+Lemma leave_other_inv : forall s ep, inv s -> leaving s = None -> ~ In ep (eps_of (active s)) ->
+  inv (set_idle (set_members s (sdiscard ep (members s))) (sdiscard ep (idle s))).
+Proof.
+  intros s ep [Im Ia Ii Id Ic Il] El Ea. constructor; cbn.
+  - apply NoDup_sdiscard; exact Im.
+  - exact Ia.
+  - apply NoDup_sdiscard; exact Ii.
+  - intros x X. rewrite In_sdiscard. intros [Y _]. exact (Id x X Y).
+  - intros x. rewrite !In_sdiscard, Ic. split; [|intros [X|X]; [|tauto]].
+    + intros [[X|X] N]; tauto.
+    + split; [tauto|]. intros ->. contradiction.
+  - rewrite El. discriminate.
+Qed.
+
+(* the second half: the departed endpoint is in no set, so the final idle.discard(ep) changes nothing *)
+Lemma replace_inv : forall s ep ch s2, inv s -> leaving s = Some ep -> try_expand (set_leaving s None) ch = Ok s2 ->
+  inv (set_idle s2 (sdiscard ep (idle s2))).
+Proof.
+  intros s ep ch s2 I El Et.
+  assert (Hnm : ~ In ep (members s)) by (apply (inv_leaving _ I); exact El).
+  assert (I0 : inv (set_leaving s None)).
+  { destruct I as [Im Ia Ii Id Ic Il]. constructor; cbn; try assumption. discriminate. }
+  pose proof (try_expand_inv _ _ _ I0 Et) as [Im Ia Ii Id Ic Il].
+  assert (Em : members s2 = members s).
+  { apply try_expand_cases in Et as [(_ & _ & ->)|(e & _ & _ & _ & ->)]; reflexivity. }
+  assert (Hni : ~ In ep (idle s2)) by (intros X; apply Hnm; rewrite <- Em; apply Ic; auto).
+  rewrite (sdiscard_notin ep (idle s2) Hni). destruct s2; constructor; cbn in *; assumption.
 Qed.
 
 Lemma step_inv : forall c s l s', inv s -> step c s l = Ok s' -> inv s'.
 Proof.
-  intros c s l s' I H. destruct l as [ep|ep ch|ep st|ep st ch|amount sample w avg ch victim|ep|ch|ep exn victim]; cbn [step] in H.
+  intros c s l s' I H. destruct l as [ep|ep|ep ch|ep st|ep st ch|amount sample w avg ch victim|ep|ch|exn victim]; cbn [step] in H.
   - (* join *)
+    destruct (leaving s) as [lv|] eqn:El; cbn [is_none negb] in H; [discriminate|].
     destruct (memz ep (members s)) eqn:Em; [inversion H; subst; exact I|].
-    apply memz_false in Em. destruct I as [Im Ia Ii Id Ic].
+    apply memz_false in Em. destruct I as [Im Ia Ii Id Ic Il].
     assert (Hna : ~ In ep (eps_of (active s))) by (intros X; apply Em; apply Ic; auto).
     assert (Hni : ~ In ep (idle s)) by (intros X; apply Em; apply Ic; auto).
     destruct (healthy s <? min_size c); inversion H; subst; clear H; constructor; cbn.
@@ -273,68 +315,48 @@ Proof.
     + exact Ii.
     + intros x. rewrite eps_of_app, in_app_iff. cbn. intros [X|[X|[]]]; [auto|subst; exact Hni].
     + intros x. rewrite eps_of_app, !in_app_iff, Ic. cbn. tauto.
+    + rewrite El. discriminate.
     + apply NoDup_snoc; assumption.
     + exact Ia.
     + apply NoDup_sadd. exact Ii.
     + intros x X. rewrite In_sadd. intros [->|Y]; [contradiction|exact (Id x X Y)].
     + intros x. rewrite in_app_iff, In_sadd, Ic. cbn. split; [intros [X|[X|[]]]|]; try tauto; auto. intros [X|[X|X]]; auto.
-  - (* leave *)
-    destruct (memz ep (eps_of (active s))) eqn:Ea.
-    + apply memz_In in Ea.
-      assert (inv (set_active (set_members s (sdiscard ep (members s))) (remove_first ep (active s)))) as I1.
-      { destruct I as [Im Ia Ii Id Ic]. constructor; cbn.
-        - apply NoDup_sdiscard; exact Im.
-        - apply NoDup_remove_first; exact Ia.
-        - exact Ii.
-        - intros x X. apply In_remove_first in X. exact (Id x X).
-        - intros x. rewrite In_sdiscard, (In_remove_first_NoDup _ _ _ Ia), Ic. split; [tauto|].
-          intros [[X N]|X]; [tauto|]. split; [tauto|]. intros ->. exact (Id ep Ea X). }
-      destruct (try_expand _ ch) as [s2| |] eqn:Et; try discriminate. inversion H; subst; clear H.
-      pose proof (try_expand_inv _ _ _ I1 Et) as [Im Ia Ii Id Ic].
-      assert (Hne : ~ In ep (members s2)).
-      { apply try_expand_cases in Et as [(_ & _ & ->)|(e & _ & _ & _ & ->)]; cbn; rewrite In_sdiscard; tauto. }
-      constructor; cbn; try assumption.
-      * apply NoDup_sdiscard; exact Ii.
-      * intros x X. rewrite In_sdiscard. intros [Y _]. exact (Id x X Y).
-      * intros x. rewrite In_sdiscard, Ic. split; [|tauto]. intros [X|X]; [tauto|]. right. split; [exact X|].
-        intros ->. apply Hne. apply Ic. tauto.
-    + apply memz_false in Ea. destruct ch; [discriminate|]. inversion H; subst; clear H.
-      destruct I as [Im Ia Ii Id Ic]. constructor; cbn.
-      * apply NoDup_sdiscard; exact Im.
-      * exact Ia.
-      * apply NoDup_sdiscard; exact Ii.
-      * intros x X. rewrite In_sdiscard. intros [Y _]. exact (Id x X Y).
-      * intros x. rewrite !In_sdiscard, Ic. split; [|intros [X|X]; [|tauto]].
-        -- intros [[X|X] N]; tauto.
-        -- split; [tauto|]. intros ->. contradiction.
+    + rewrite El. discriminate.
+  - (* leave, first half *)
+    destruct (leaving s) as [lv|] eqn:El; [discriminate|].
+    destruct (memz ep (eps_of (active s))) eqn:Ea; inversion H; subst; clear H.
+    + apply leave_active_inv; [exact I|apply memz_In; exact Ea].
+    + apply leave_other_inv; [exact I|exact El|apply memz_false; exact Ea].
+  - (* leave, second half *)
+    destruct (leaving s) as [lv|] eqn:El; [|discriminate].
+    destruct (Z.eqb_spec lv ep) as [->|N]; cbn [negb] in H; [|discriminate].
+    destruct (try_expand (set_leaving s None) ch) as [s2| |] eqn:Et; try discriminate. inversion H; subst; clear H.
+    eapply replace_inv; eassumption.
   - (* chan *)
-    inversion H; subst; clear H. eapply inv_same_sets; [| | |exact I]; cbn; try reflexivity. apply eps_of_setst.
+    inversion H; subst; clear H. eapply inv_same_sets; [| | | |exact I]; cbn; try reflexivity. apply eps_of_setst.
   - (* node down *)
-    assert (forall s0, (if st =? 1 then match ch with None => Ok s | Some _ => Inadm end else try_expand s ch) = Ok s0 -> inv s0) as K.
-    { intros s0 H0. destruct (st =? 1).
-      - destruct ch; [discriminate|]. inversion H0; subst; exact I.
-      - eapply try_expand_inv; eassumption. }
-    apply K; exact H.
+    destruct (st =? 1).
+    + destruct ch; [discriminate|]. inversion H; subst; exact I.
+    + eapply try_expand_inv; eassumption.
   - (* adjust *)
     destruct (negb (total s + amount =? sample)); [discriminate|].
     destruct (negb (ema_ok s sample w avg)); [discriminate|].
     set (s1 := {| members := members s; active := active s; idle := idle s; pending := pending s;
-                  total := total s + amount; ema := Some avg |}) in *.
-    assert (I1 : inv s1) by (eapply inv_same_sets; [| | |exact I]; reflexivity).
+                  total := total s + amount; ema := Some avg; leaving := leaving s |}) in *.
+    assert (I1 : inv s1) by (eapply inv_same_sets; [| | | |exact I]; reflexivity).
     destruct (up_cond c s avg).
     + destruct victim; [discriminate|]. eapply try_expand_inv; eassumption.
     + destruct (down_cond c s avg).
       * destruct ch; [discriminate|]. eapply contract_inv; eassumption.
       * destruct ch; [discriminate|]. destruct victim; [discriminate|]. inversion H; subst. exact I1.
   - (* open done *)
-    inversion H; subst; clear H. eapply inv_same_sets; [| | |exact I]; reflexivity.
+    inversion H; subst; clear H. eapply inv_same_sets; [| | | |exact I]; reflexivity.
   - (* jitter start *)
     eapply try_expand_inv; eassumption.
   - (* jitter done *)
     destruct exn.
-    + destruct victim; [discriminate|]. inversion H; subst; clear H. eapply inv_same_sets; [| | |exact I]; reflexivity.
-    + destruct (contract c s true victim) as [s2| |] eqn:Ec; try discriminate. inversion H; subst; clear H.
-      eapply inv_same_sets; [| | |eapply contract_inv; [exact I|exact Ec]]; reflexivity.
+    + destruct victim; [discriminate|]. inversion H; subst; exact I.
+    + eapply contract_inv; eassumption.
 Qed.
 
 Lemma step_no_crash : forall c s l, inv s -> step c s l <> Crash.
@@ -342,36 +364,26 @@ Proof.
   intros c s l I.
   assert (T : forall s0 ch, inv s0 -> try_expand s0 ch <> Crash).
   { intros s0 ch I0. apply try_expand_no_crash. intros e He. apply (inv_cover _ I0). auto. }
-  destruct l as [ep|ep ch|ep st|ep st ch|amount sample w avg ch victim|ep|ch|ep exn victim]; cbn [step].
-  - destruct (memz ep (members s)); [discriminate|]. destruct (healthy s <? min_size c); discriminate.
-  - destruct (memz ep (eps_of (active s))) eqn:Ea.
-    + apply memz_In in Ea.
-      assert (inv (set_active (set_members s (sdiscard ep (members s))) (remove_first ep (active s)))) as I1.
-      { destruct I as [Im Ia Ii Id Ic]. constructor; cbn.
-        - apply NoDup_sdiscard; exact Im.
-        - apply NoDup_remove_first; exact Ia.
-        - exact Ii.
-        - intros x X. apply In_remove_first in X. exact (Id x X).
-        - intros x. rewrite In_sdiscard, (In_remove_first_NoDup _ _ _ Ia), Ic. split; [tauto|].
-          intros [[X N]|X]; [tauto|]. split; [tauto|]. intros ->. exact (Id ep Ea X). }
-      specialize (T _ ch I1). destruct (try_expand _ ch); try discriminate. contradiction.
-    + destruct ch; discriminate.
+  destruct l as [ep|ep|ep ch|ep st|ep st ch|amount sample w avg ch victim|ep|ch|exn victim]; cbn [step].
+  - destruct (negb (is_none (leaving s))); [discriminate|].
+    destruct (memz ep (members s)); [discriminate|]. destruct (healthy s <? min_size c); discriminate.
+  - destruct (leaving s); [discriminate|]. destruct (memz ep (eps_of (active s))); discriminate.
+  - destruct (leaving s) as [lv|] eqn:El; [|discriminate]. destruct (negb (lv =? ep)); [discriminate|].
+    assert (I0 : inv (set_leaving s None)).
+    { destruct I as [Im Ia Ii Id Ic Il]. constructor; cbn; try assumption. discriminate. }
+    specialize (T _ ch I0). destruct (try_expand (set_leaving s None) ch); try discriminate. contradiction.
   - discriminate.
-  - assert (K : (if st =? 1 then match ch with None => Ok s | Some _ => Inadm end else try_expand s ch) <> Crash).
-    { destruct (st =? 1); [destruct ch; discriminate|apply T; exact I]. }
-    exact K.
+  - destruct (st =? 1); [destruct ch; discriminate|apply T; exact I].
   - destruct (negb (total s + amount =? sample)); [discriminate|].
     destruct (negb (ema_ok s sample w avg)); [discriminate|].
     destruct (up_cond c s avg).
-    + destruct victim; [discriminate|]. apply T. eapply inv_same_sets; [| | |exact I]; reflexivity.
+    + destruct victim; [discriminate|]. apply T. eapply inv_same_sets; [| | | |exact I]; reflexivity.
     + destruct (down_cond c s avg).
       * destruct ch; [discriminate|]. apply contract_no_crash.
       * destruct ch; [discriminate|]. destruct victim; discriminate.
   - discriminate.
   - apply T. exact I.
-  - destruct exn.
-    + destruct victim; discriminate.
-    + pose proof (contract_no_crash c s true victim). destruct (contract c s true victim); try discriminate. contradiction.
+  - destruct exn; [destruct victim; discriminate|apply contract_no_crash].
 Qed.
 
 Lemma run_inv : forall c ls s s', inv s -> run c s ls = Ok s' -> inv s'.
@@ -426,9 +438,6 @@ Proof. intros v a H. apply length_remove_first in H. lia. Qed.
 (* ------------------------------------------------------------------------------------------ *)
 (* lower bound                                                                                *)
 (* ------------------------------------------------------------------------------------------ *)
-Definition min_inv (c : config) (s : state) : Prop :=
-  Z.min (min_size c) (Z.of_nat (length (members s))) <= size s.
-
 (* what a step that makes the active set smaller looks like *)
 Definition moved (c : config) (s s' : state) : Prop :=
   exists v, In v (eps_of (active s)) /\ ~ In v (pending s) /\
@@ -458,91 +467,120 @@ Proof.
 Qed.
 
 Lemma step_shrink : forall c s l s', step c s l = Ok s' -> size s' < size s ->
-  (exists ep ch, l = LLeave ep ch /\ size s - 1 <= size s') \/ moved c s s'.
+  (exists ep, l = LLeave ep /\ In ep (eps_of (active s)) /\ size s' = size s - 1 /\ leaving s' = Some ep /\
+              members s' = sdiscard ep (members s) /\ idle s' = idle s) \/
+  moved c s s'.
 Proof.
   intros c s l s' H Hlt.
-  destruct l as [ep|ep ch|ep st|ep st ch|amount sample w avg ch victim|ep|ch|ep exn victim]; cbn [step] in H.
-  - exfalso. destruct (memz ep (members s)); [inversion H; subst; lia|].
+  assert (T : forall s0 ch, try_expand s0 ch = Ok s' -> size s0 <= size s').
+  { intros s0 ch H0. apply try_expand_shape in H0 as (_ & _ & _ & [(_ & ->)|(e & _ & _ & _ & _ & _ & Hs)]); lia. }
+  destruct l as [ep|ep|ep ch|ep st|ep st ch|amount sample w avg ch victim|ep|ch|exn victim]; cbn [step] in H.
+  - exfalso. destruct (negb (is_none (leaving s))); [discriminate|].
+    destruct (memz ep (members s)); [inversion H; subst; lia|].
     destruct (healthy s <? min_size c); inversion H; subst; clear H; unfold size in Hlt; cbn in Hlt; rewrite ?app_length in Hlt; lia.
-  - left. exists ep, ch. split; [reflexivity|].
-    destruct (memz ep (eps_of (active s))) eqn:Ea.
-    + destruct (try_expand _ ch) as [s2| |] eqn:Et; try discriminate. inversion H; subst; clear H.
-      apply memz_In in Ea. apply length_remove_first in Ea.
-      apply try_expand_shape in Et as (_ & _ & _ & [(_ & ->)|(e & _ & _ & Ea2 & _ & _ & Hs)]); unfold size in *; cbn in *; lia.
-    + destruct ch; [discriminate|]. inversion H; subst. unfold size. cbn. lia.
+  - left. exists ep. destruct (leaving s); [discriminate|].
+    destruct (memz ep (eps_of (active s))) eqn:Ea; inversion H; subst; clear H.
+    + apply memz_In in Ea. split; [reflexivity|]. split; [exact Ea|]. unfold size. cbn.
+      split; [apply size_remove_first; exact Ea|]. auto.
+    + exfalso. unfold size in Hlt. cbn in Hlt. lia.
+  - exfalso. destruct (leaving s) as [lv|]; [|discriminate]. destruct (negb (lv =? ep)); [discriminate|].
+    destruct (try_expand (set_leaving s None) ch) as [s2| |] eqn:Et; try discriminate. inversion H; subst; clear H.
+    assert (size s <= size s2).
+    { apply try_expand_shape in Et as (_ & _ & _ & [(_ & ->)|(e & _ & _ & _ & _ & _ & Hs)]); unfold size in *; cbn in *; lia. }
+    unfold size in *. cbn in *. lia.
   - exfalso. inversion H; subst. unfold size in Hlt. cbn in Hlt. rewrite map_length in Hlt. lia.
-  - exfalso.
-    assert (K : forall s0, (if st =? 1 then match ch with None => Ok s | Some _ => Inadm end else try_expand s ch) = Ok s0 -> size s <= size s0).
-    { intros s0 H0. destruct (st =? 1).
-      - destruct ch; [discriminate|]. inversion H0; subst. lia.
-      - apply try_expand_shape in H0 as (_ & _ & _ & [(_ & ->)|(e & _ & _ & _ & _ & _ & Hs)]); lia. }
-    apply K in H; lia.
+  - exfalso. destruct (st =? 1).
+    + destruct ch; [discriminate|]. inversion H; subst. lia.
+    + apply T in H. lia.
   - destruct (negb (total s + amount =? sample)); [discriminate|].
     destruct (negb (ema_ok s sample w avg)); [discriminate|].
     destruct (up_cond c s avg).
-    + exfalso. destruct victim; [discriminate|].
-      apply try_expand_shape in H as (_ & _ & _ & [(_ & ->)|(e & _ & _ & _ & _ & _ & Hs)]); unfold size in *; cbn in *; lia.
+    + exfalso. destruct victim; [discriminate|]. apply T in H. unfold size in *; cbn in *; lia.
     + destruct (down_cond c s avg).
       * destruct ch; [discriminate|]. right. eapply contract_moved; try exact H; try reflexivity. exact Hlt.
       * exfalso. destruct ch; [discriminate|]. destruct victim; [discriminate|]. inversion H; subst. unfold size in Hlt. cbn in Hlt. lia.
   - exfalso. inversion H; subst. unfold size in Hlt. cbn in Hlt. lia.
-  - exfalso. apply try_expand_shape in H as (_ & _ & _ & [(_ & ->)|(e & _ & _ & _ & _ & _ & Hs)]); lia.
+  - exfalso. apply T in H. lia.
   - destruct exn.
-    + exfalso. destruct victim; [discriminate|]. inversion H; subst. unfold size in Hlt. cbn in Hlt. lia.
-    + destruct (contract c s true victim) as [s2| |] eqn:Ec; try discriminate. inversion H; subst; clear H.
-      right. apply (moved_fields c s s2); try reflexivity.
-      eapply contract_moved; try exact Ec; try reflexivity. unfold size in *. cbn in Hlt. exact Hlt.
+    + exfalso. destruct victim; [discriminate|]. inversion H; subst. lia.
+    + right. eapply contract_moved; try exact H; try reflexivity. exact Hlt.
+Qed.
+
+(* while a departure is between its two halves and an idle member is waiting to replace the departed one,
+   the bound is short by that one replacement *)
+Definition slack (s : state) : Z :=
+  match leaving s, idle s with Some _, _ :: _ => 1 | _, _ => 0 end.
+
+Lemma slack_range : forall s, 0 <= slack s <= 1.
+Proof. intros s. unfold slack. destruct (leaving s); destruct (idle s); lia. Qed.
+
+Definition min_inv (c : config) (s : state) : Prop :=
+  Z.min (min_size c) (Z.of_nat (length (members s))) <= size s + slack s.
+
+Lemma step_nonshrink : forall c s l s', step c s l = Ok s' -> size s <= size s' ->
+  (exists ep, l = LJoin ep /\ leaving s = None /\ memz ep (members s) = false) \/
+  ((length (members s') <= length (members s))%nat /\ (size s + 1 <= size s' \/ slack s' = slack s)).
+Proof.
+  intros c s l s' H Hle.
+  assert (T : forall s0 ch, try_expand s0 ch = Ok s' -> members s0 = members s -> size s0 = size s -> slack s0 = slack s ->
+              (length (members s') <= length (members s))%nat /\ (size s + 1 <= size s' \/ slack s' = slack s)).
+  { intros s0 ch H0 Em Es Ek. apply try_expand_shape in H0 as (Em' & _ & _ & [(_ & ->)|(e & _ & _ & _ & _ & _ & Hs)]).
+    - rewrite Em. split; [lia|right; exact Ek].
+    - rewrite Em', Em. split; [lia|left; lia]. }
+  destruct l as [ep|ep|ep ch|ep st|ep st ch|amount sample w avg ch victim|ep|ch|exn victim]; cbn [step] in H.
+  - destruct (leaving s) as [lv|] eqn:El; cbn [is_none negb] in H; [discriminate|].
+    destruct (memz ep (members s)) eqn:Em; [|left; eauto].
+    right. inversion H; subst. split; [lia|right; reflexivity].
+  - right. destruct (leaving s) eqn:El; [discriminate|].
+    destruct (memz ep (eps_of (active s))) eqn:Ea; inversion H; subst; clear H.
+    + exfalso. apply memz_In in Ea. apply length_remove_first in Ea. unfold size in Hle. cbn in Hle. lia.
+    + cbn. split; [apply length_sdiscard_le|]. right. unfold slack. cbn. rewrite El. reflexivity.
+  - right. destruct (leaving s) as [lv|] eqn:El; [|discriminate]. destruct (negb (lv =? ep)); [discriminate|].
+    destruct (try_expand (set_leaving s None) ch) as [s2| |] eqn:Et; try discriminate. inversion H; subst; clear H. cbn.
+    apply try_expand_shape in Et as (Em' & _ & _ & [(Ei & ->)|(e & _ & _ & _ & _ & _ & Hs)]); cbn in *.
+    + split; [lia|]. right. unfold slack. cbn. rewrite El, Ei. reflexivity.
+    + rewrite Em'. split; [lia|]. left. unfold size in *. cbn in *. lia.
+  - right. inversion H; subst. cbn. split; [lia|]. right. reflexivity.
+  - right. destruct (st =? 1).
+    + destruct ch; [discriminate|]. inversion H; subst. split; [lia|right; reflexivity].
+    + eapply T; try exact H; reflexivity.
+  - right. destruct (negb (total s + amount =? sample)); [discriminate|].
+    destruct (negb (ema_ok s sample w avg)); [discriminate|].
+    destruct (up_cond c s avg).
+    + destruct victim; [discriminate|]. eapply T; try exact H; reflexivity.
+    + destruct (down_cond c s avg).
+      * destruct ch; [discriminate|]. apply contract_cases in H as [(_ & -> & _)|(v & _ & Hv & _ & _ & ->)].
+        -- cbn. split; [lia|right; reflexivity].
+        -- exfalso. apply victim_ok_In in Hv as [Hv _]. cbn in Hv. apply length_remove_first in Hv.
+           unfold size in Hle. cbn in Hle. lia.
+      * destruct ch; [discriminate|]. destruct victim; [discriminate|]. inversion H; subst. cbn. split; [lia|right; reflexivity].
+  - right. inversion H; subst. cbn. split; [lia|right; reflexivity].
+  - right. eapply T; try exact H; reflexivity.
+  - right. destruct exn.
+    + destruct victim; [discriminate|]. inversion H; subst. split; [lia|right; reflexivity].
+    + apply contract_cases in H as [(_ & -> & _)|(v & _ & Hv & _ & _ & ->)].
+      * split; [lia|right; reflexivity].
+      * exfalso. apply victim_ok_In in Hv as [Hv _]. apply length_remove_first in Hv.
+        unfold size in Hle. cbn in Hle. lia.
 Qed.
 
 Lemma step_min_inv : forall c s l s', inv s -> min_inv c s -> step c s l = Ok s' -> min_inv c s'.
 Proof.
-  intros c s l s' I M H. unfold min_inv in *.
+  intros c s l s' I M H. unfold min_inv in *. pose proof (slack_range s) as R. pose proof (slack_range s') as R'.
   destruct (Z_lt_le_dec (size s') (size s)) as [Hlt|Hge].
-  - destruct (step_shrink _ _ _ _ H Hlt) as [(ep & ch & -> & Hs)|(v & _ & _ & _ & _ & _ & _ & _ & Hm)]; [|lia].
-    (* a departure of an active member *)
-    cbn [step] in H. pose proof (inv_count s I) as Cnt.
-    destruct (memz ep (eps_of (active s))) eqn:Ea.
-    + apply memz_In in Ea.
-      assert (Hmem : In ep (members s)) by (apply (inv_cover _ I); auto).
-      pose proof (length_sdiscard_NoDup ep (members s) (inv_mem _ I) Hmem) as Lm.
-      destruct (try_expand _ ch) as [s2| |] eqn:Et; try discriminate. inversion H; subst; clear H. cbn in *.
-      apply try_expand_shape in Et as (Em & _ & _ & [(Ei & ->)|(e & _ & _ & _ & _ & _ & Hs2)]); cbn in *.
-      * (* no idle member left: everything that remains is active *)
-        rewrite Ei in Cnt. unfold size in *. cbn in *. apply length_remove_first in Ea. lia.
-      * exfalso. unfold size in *. cbn in *. apply length_remove_first in Ea. lia.
-    + destruct ch; [discriminate|]. inversion H; subst. unfold size in Hlt. cbn in Hlt. lia.
-  - (* the active set did not shrink: only a join can make the bound larger *)
-    assert (length (members s') <= length (members s) \/
-            (exists ep, l = LJoin ep /\ memz ep (members s) = false))%nat as [Hm|(ep & -> & Em)].
-    { destruct l as [ep|ep ch|ep st|ep st ch|amount sample w avg ch victim|ep|ch|ep exn victim]; cbn [step] in H.
-      - destruct (memz ep (members s)) eqn:Em; [left; inversion H; subst; lia|right; eauto].
-      - left. destruct (memz ep (eps_of (active s))).
-        + destruct (try_expand _ ch) as [s2| |] eqn:Et; try discriminate. inversion H; subst; clear H.
-          apply try_expand_shape in Et as (Em & _). cbn in *. rewrite Em. apply length_sdiscard_le.
-        + destruct ch; [discriminate|]. inversion H; subst. cbn. apply length_sdiscard_le.
-      - left. inversion H; subst. cbn. lia.
-      - left.
-        assert (K : forall s0, (if st =? 1 then match ch with None => Ok s | Some _ => Inadm end else try_expand s ch) = Ok s0 -> members s0 = members s).
-        { intros s0 H0. destruct (st =? 1); [destruct ch; [discriminate|]; inversion H0; reflexivity|].
-          apply try_expand_shape in H0. tauto. }
-        apply K in H; rewrite H; lia.
-      - left. destruct (negb (total s + amount =? sample)); [discriminate|].
-        destruct (negb (ema_ok s sample w avg)); [discriminate|].
-        destruct (up_cond c s avg).
-        + destruct victim; [discriminate|]. apply try_expand_shape in H as (Em & _). rewrite Em. cbn. lia.
-        + destruct (down_cond c s avg).
-          * destruct ch; [discriminate|]. apply contract_cases in H as [(_ & -> & _)|(v & _ & _ & _ & _ & ->)]; cbn; lia.
-          * destruct ch; [discriminate|]. destruct victim; [discriminate|]. inversion H; subst. cbn. lia.
-      - left. inversion H; subst. cbn. lia.
-      - left. apply try_expand_shape in H as (Em & _). rewrite Em. lia.
-      - left. destruct exn.
-        + destruct victim; [discriminate|]. inversion H; subst. cbn. lia.
-        + destruct (contract c s true victim) as [s2| |] eqn:Ec; try discriminate. inversion H; subst; clear H. cbn.
-          apply contract_cases in Ec as [(_ & -> & _)|(v & _ & _ & _ & _ & ->)]; cbn; lia. }
-    + lia.
-    + cbn [step] in H. rewrite Em in H. pose proof (healthy_le_size s).
-      destruct (Z.ltb_spec (healthy s) (min_size c)); inversion H; subst; clear H; unfold size in *; cbn in *;
-        rewrite ?app_length in *; cbn in *; lia.
+  - destruct (step_shrink _ _ _ _ H Hlt) as [(ep & -> & Ea & Hs & El & Em & Ei)|(v & _ & _ & _ & _ & _ & _ & _ & Hm)]; [|lia].
+    (* first half of the departure of an active member *)
+    assert (leaving s = None) as El0 by (cbn [step] in H; destruct (leaving s); [discriminate|reflexivity]).
+    assert (Hmem : In ep (members s)) by (apply (inv_cover _ I); auto).
+    pose proof (length_sdiscard_NoDup ep (members s) (inv_mem _ I) Hmem) as Lm. pose proof (inv_count s I) as Cnt.
+    rewrite Em. unfold slack in *. rewrite El, Ei. rewrite El0 in M.
+    destruct (idle s) as [|i0 ir] eqn:Eid; cbn in *; unfold size in *; lia.
+  - destruct (step_nonshrink _ _ _ _ H Hge) as [(ep & -> & El & Em)|(Lm & [G|K])]; [| lia | lia].
+    (* a new member joins *)
+    cbn [step] in H. rewrite El, Em in H. cbn [is_none negb] in H. pose proof (healthy_le_size s).
+    assert (slack s = 0) as K0 by (unfold slack; rewrite El; reflexivity).
+    destruct (Z.ltb_spec (healthy s) (min_size c)); inversion H; subst; clear H; unfold size, slack in *; cbn in *;
+      rewrite ?app_length in *; rewrite ?El in *; cbn in *; lia.
 Qed.
 
 Lemma run_min_inv : forall c ls s s', inv s -> min_inv c s -> run c s ls = Ok s' -> min_inv c s'.
@@ -558,7 +596,7 @@ Qed.
 (* ------------------------------------------------------------------------------------------ *)
 Lemma adjust_cases : forall c s amount sample w avg ch victim s', step c s (LAdjust amount sample w avg ch victim) = Ok s' ->
   let s1 := {| members := members s; active := active s; idle := idle s; pending := pending s;
-               total := total s + amount; ema := Some avg |} in
+               total := total s + amount; ema := Some avg; leaving := leaving s |} in
   sample = total s + amount /\ ema_ok s sample w avg = true /\
   ((up_cond c s avg = true /\ victim = None /\ try_expand s1 ch = Ok s') \/
    (up_cond c s avg = false /\ down_cond c s avg = true /\ ch = None /\ contract c s1 false victim = Ok s') \/
@@ -639,7 +677,7 @@ Lemma adjust_enabled : forall c s amount w avg, inv s -> ema_ok s (total s + amo
 Proof.
   intros c s amount w avg I E. cbn [step]. rewrite Z.eqb_refl, E. cbn [negb].
   set (s1 := {| members := members s; active := active s; idle := idle s; pending := pending s;
-                total := total s + amount; ema := Some avg |}).
+                total := total s + amount; ema := Some avg; leaving := leaving s |}).
   destruct (up_cond c s avg) eqn:U.
   - unfold up_cond in U. apply andb_true_iff in U as [U _]. apply andb_true_iff in U as [_ U].
     destruct (idle s) as [|e r] eqn:Ei; [discriminate|].
@@ -651,7 +689,7 @@ Proof.
   - destruct (down_cond c s avg) eqn:D.
     + unfold contract. subst s1. cbn [pending].
       set (s1 := {| members := members s; active := active s; idle := idle s; pending := pending s;
-                total := total s + amount; ema := Some avg |}).
+                total := total s + amount; ema := Some avg; leaving := leaving s |}).
       destruct (negb (is_nil (pending s)) && negb false) eqn:G; [exists None, None; eauto|].
       change (healthy s1) with (healthy s).
       destruct (min_size c <? healthy s); [|exists None, None; eauto].
@@ -808,7 +846,7 @@ Lemma quiet_step : forall c a s l s', cfg_ok c -> quiet a l -> step c s l = Ok s
   (size s' = size s - 1 /\ min_size c <= size s' /\ J_dn a c s' /\ ~ J_up a c s).
 Proof.
   intros c a s l s' (Hms & Hlo & Hband) Q H.
-  destruct l as [ep|ep ch|ep st|ep st ch|amount sample w avg ch victim|ep|ch|ep exn victim]; cbn in Q; try contradiction.
+  destruct l as [ep|ep|ep ch|ep st|ep st ch|amount sample w avg ch victim|ep|ch|exn victim]; cbn in Q; try contradiction.
   2:{ left. cbn in H. inversion H; subst. unfold size. cbn. auto. }
   subst avg. pose proof H as H0.
   apply adjust_cases in H as (_ & _ & [(U & _ & _)|[(U & D & _ & Hc)|(U & D & _ & _ & ->)]]).
